@@ -34,6 +34,7 @@ RowHits(e) ==
       [] e.e = "Rule" -> If(e.out = Required(RuleOK(e.gen, e.role, e.rule)), IF RuleOK(e.gen, e.role, e.rule) THEN "AcceptsValid:rule" ELSE "RejectsInvalid:rule", e)
       [] e.e = "AfterRule" -> If(e.out = 0, "UsableAfterRejection", e)
       [] e.e \in {"Reset", "EndArgs"} -> {}
+      [] e.e = "OutOfRange" -> {Hit("OutOfRange", e)}
       [] OTHER -> {Hit("UnknownRow", e)}
 
 TrInit == l = 1 /\ mon = {} /\ cov = [key \in CovKeys |-> 0]
